@@ -67,6 +67,17 @@ inductive Forall2 {α β : Type} (R : α → β → Prop) : List α → List β 
   | nil : Forall2 R [] []
   | cons {a b l₁ l₂} : R a b → Forall2 R l₁ l₂ → Forall2 R (a :: l₁) (b :: l₂)
 
+theorem Forall2.exists_of_mem_left {α β : Type} {R : α → β → Prop} {l₁ : List α} {l₂ : List β}
+    (h : Forall2 R l₁ l₂) {a : α} (ha : a ∈ l₁) : ∃ b, b ∈ l₂ ∧ R a b := by
+  induction h with
+  | nil => cases ha
+  | cons hr _ ih =>
+    simp only [List.mem_cons] at ha
+    rcases ha with rfl | ha
+    · exact ⟨_, by simp, hr⟩
+    · obtain ⟨b, hb, hR⟩ := ih ha
+      exact ⟨b, by simp [hb], hR⟩
+
 theorem Forall2.length_eq {α β : Type} {R : α → β → Prop} {l₁ : List α} {l₂ : List β}
     (h : Forall2 R l₁ l₂) : l₁.length = l₂.length := by
   induction h with
